@@ -14,11 +14,34 @@ use crate::common::{Error, Result};
 
 const READER_BUFSIZE: usize = 32 * 1024;
 
+/// Blk file handle which retries interrupted reads.
+/// `seek_bufread::BufReader::read` copies buffered bytes to the caller before it refills its buffer;
+/// if the refill fails with `ErrorKind::Interrupted` these bytes are dropped and the retry
+/// of `read_exact` continues behind them, so the interruption must not reach the buffered reader.
+pub struct RawBlkFile(File);
+
+impl Read for RawBlkFile {
+    fn read(&mut self, buf: &mut [u8]) -> io::Result<usize> {
+        loop {
+            match self.0.read(buf) {
+                Err(e) if e.kind() == io::ErrorKind::Interrupted => continue,
+                res => return res,
+            }
+        }
+    }
+}
+
+impl Seek for RawBlkFile {
+    fn seek(&mut self, pos: SeekFrom) -> io::Result<u64> {
+        self.0.seek(pos)
+    }
+}
+
 /// Holds all necessary data about a raw blk file
 pub struct BlkFile {
     pub path: PathBuf,
     xor_key: Option<Vec<u8>>,
-    reader: Option<XorReader<BufReader<File>>>,
+    reader: Option<XorReader<BufReader<RawBlkFile>>>,
 }
 
 impl BlkFile {
@@ -32,10 +55,11 @@ impl BlkFile {
     }
 
     /// Opens the file handle (does nothing if the file has been opened already)
-    fn open(&mut self) -> Result<&mut XorReader<BufReader<File>>> {
+    fn open(&mut self) -> Result<&mut XorReader<BufReader<RawBlkFile>>> {
         if self.reader.is_none() {
             debug!(target: "blkfile", "Opening {} ...", &self.path.display());
-            let buf_reader = BufReader::with_capacity(READER_BUFSIZE, File::open(&self.path)?);
+            let file = RawBlkFile(File::open(&self.path)?);
+            let buf_reader = BufReader::with_capacity(READER_BUFSIZE, file);
             self.reader = Some(XorReader::new(buf_reader, self.xor_key.clone()));
         }
         Ok(self.reader.as_mut().unwrap())
